@@ -17,6 +17,42 @@ Fixpoint rows_of {B : Type} (n : nat) (cols : list (list B)) : list (list B) :=
   | S k => heads cols :: rows_of k (map (@tl B) cols)
   end.
 
+(* =====================================================================================================
+   get_block_match (type_blocks.py: inside clip 2494-2545, _assign_from_iloc_by_blocks, _assign_from_boolean_blocks_by_blocks):
+   the source arrays are kept on a stack (the reversed list, top = next columns); a request of width w pops
+   arrays until w columns are collected, splits the last one and PUSHES THE REMAINDER BACK.  The branches of the
+   code (w = 1 / equal width / wider / accumulate with trim) are all instances of this one recursion.
+   X = a column; a source array = the list of its columns; stack top = head of the list.
+   ===================================================================================================== *)
+Fixpoint take_cols {X : Type} (src : list (list X)) (need : nat) : option (list X * list (list X)) :=
+  match need with
+  | O => Some ([], src)
+  | S _ =>
+      match src with
+      | [] => None                                   (* source.pop() from an empty list: IndexError *)
+      | blk :: rest =>
+          if (length blk <=? need)%nat
+          then match take_cols rest (need - length blk) with
+               | Some (cols, src') => Some (blk ++ cols, src')
+               | None => None
+               end
+          else Some (firstn need blk, skipn need blk :: rest)
+      end
+  end.
+
+(* a sequence of requests of widths ws (one per target block) *)
+Fixpoint take_many {X : Type} (src : list (list X)) (ws : list nat) : option (list (list X) * list (list X)) :=
+  match ws with
+  | [] => Some ([], src)
+  | w :: r => match take_cols src w with
+              | None => None
+              | Some (cols, src') => match take_many src' r with
+                                     | Some (pieces, rest) => Some (cols :: pieces, rest)
+                                     | None => None
+                                     end
+              end
+  end.
+
 Section Ops.
 Context {A : Type}.
 Notation block := (block A).
@@ -385,6 +421,84 @@ Definition M_dropna_keep_columns (na : A -> bool) (cond : list bool -> bool) (t 
   end.
 Definition S_dropna_keep_columns (na : A -> bool) (cond : list bool -> bool) (cols : list column) : list bool :=
   map (fun c => negb (cond (map na (snd c)))) cols.
+
+(* =====================================================================================================
+   11. TypeBlocks.clip with Frame bounds (type_blocks.py:2465-2577; Frame.clip passes the bound frames' block lists)
+       a bound is None (no bound on that side) or the stack of the bound frame's blocks (cells only: the bounds
+       are assumed to have the receiver's column dtypes, so np.clip keeps the block dtype)
+   ===================================================================================================== *)
+Section Clip.
+Variable clipc : A -> option A -> option A -> A.          (* np.clip on one cell: minimum(maximum(x, lo), hi) *)
+
+Definition bound_stack := option (list (list (list A))).   (* blocks -> columns -> cells *)
+Definition bound_cols := option (list (list A)).
+
+Definition take_bound (s : bound_stack) (w : nat) : option (bound_cols * bound_stack) :=
+  match s with
+  | None => Some (None, None)                     (* is_element: the same (absent) bound for every block *)
+  | Some st => match take_cols st w with
+               | Some (cols, st') => Some (Some cols, Some st')
+               | None => None
+               end
+  end.
+
+Definition pop1 (s : bound_cols) : option (option (list A) * bound_cols) :=
+  match s with
+  | None => Some (None, None)
+  | Some [] => None
+  | Some (x :: r) => Some (Some x, Some r)
+  end.
+Definition head_cell (l : option (list A)) : option A := match l with Some (y :: _) => Some y | _ => None end.
+Fixpoint clip_column (c : list A) (l h : option (list A)) : list A :=
+  match c with
+  | [] => []
+  | x :: c' => clipc x (head_cell l) (head_cell h) :: clip_column c' (option_map (@tl A) l) (option_map (@tl A) h)
+  end.
+(* np.clip(block, lb, ub) column by column: column k of the block against column k of each bound *)
+Fixpoint clip_cols (cs : list (list A)) (lo hi : bound_cols) : res (list (list A)) :=
+  match cs with
+  | [] => Ok []
+  | c :: r => match pop1 lo, pop1 hi with
+              | Some (l, lo'), Some (h, hi') =>
+                  match clip_cols r lo' hi' with
+                  | Ok out => Ok (clip_column c l h :: out)
+                  | Err e => Err e
+                  end
+              | _, _ => Err "IndexError"
+              end
+  end.
+
+Fixpoint clip_go (t : tb) (lo hi : bound_stack) : res tb :=
+  match t with
+  | [] => Ok []
+  | b :: r =>
+      let w := length (b_cols b) in
+      match take_bound lo w, take_bound hi w with
+      | Some (lc, lo'), Some (hc, hi') =>
+          match clip_cols (b_cols b) lc hc with
+          | Err e => Err e
+          | Ok cs' => match clip_go r lo' hi' with
+                      | Ok r' => Ok (mk_block (b_dtype b) (b_1d b) cs' :: r')
+                      | Err e => Err e
+                      end
+          end
+      | _, _ => Err "IndexError"
+      end
+  end.
+Definition M_clip (t : tb) (lo hi : bound_stack) : res tb :=
+  match clip_go t lo hi with
+  | Err e => Err e
+  | Ok bs => from_blocks_gen bs
+  end.
+
+(* specification: column j clipped with column j of each bound *)
+Definition S_clip (cols : list column) (lo hi : bound_cols) : res (list column) :=
+  match clip_cols (map snd cols) lo hi with
+  | Ok out => Ok (combine (map fst cols) out)
+  | Err e => Err e
+  end.
+Definition stack_cols (s : bound_stack) : bound_cols := option_map (@concat (list A)) s.
+End Clip.
 
 End Ops.
 
